@@ -52,6 +52,28 @@ func C12(e *Env) {
 		}
 	}
 	r.Analysed["panic_sites_by_kind"] = byKind
+	// positive control for the zero-expected kind deref-lookup
+	r.Rule("R12.1-control", "positive control: the unguarded dereference of a map-read pointer in fixtures/ctl is enumerated and not discharged; the guarded forms are discharged", 1)
+	if ctl := e.Control("ctl", true); ctl != nil {
+		bad, good := 0, 0
+		for _, s := range enumeratePanicSitesIn(e, ctl) {
+			if s.kind != "deref-lookup" {
+				continue
+			}
+			if _, ok := dischargeDerefLookup(e, s); ok {
+				good++
+			} else if s.fn.Name() == "LookupDeref" {
+				bad++
+			} else {
+				bad = -100
+			}
+		}
+		if bad == 1 && good == 2 {
+			r.Hold("R12.1-control", "fixtures/ctl#LookupDeref", "1 unguarded site reported, 2 guarded sites discharged")
+		} else {
+			r.Undecide("R12.1-control", "fixtures/ctl#LookupDeref", fmt.Sprintf("control not reproduced (unguarded %d, guarded %d): the rule is blind or over-eager", bad, good))
+		}
+	}
 	c12Recursion(e)
 	c12Loops(e)
 	c12Repeat(e)
@@ -82,10 +104,12 @@ func C12(e *Env) {
 	r.Assumptions = append(r.Assumptions, "the report writer (stdout or io.Discard) does not fail; Printer.Println turns a write error into a panic")
 }
 
-func enumeratePanicSites(e *Env) []panicSite {
+func enumeratePanicSites(e *Env) []panicSite { return enumeratePanicSitesIn(e, e.P) }
+
+func enumeratePanicSitesIn(e *Env, prog *load.Program) []panicSite {
 	var out []panicSite
-	for _, fn := range e.P.Funcs() {
-		if isGeneratedFn(e.P, rootFn(fn)) {
+	for _, fn := range prog.Funcs() {
+		if isGeneratedFn(prog, rootFn(fn)) {
 			continue
 		}
 		for _, b := range fn.Blocks {
@@ -100,7 +124,7 @@ func enumeratePanicSites(e *Env) []panicSite {
 						last = n[i+1:]
 					}
 					if strings.HasPrefix(last, "Must") {
-						out = append(out, panicSite{fn, ins, "must-call", shortName(e.P.ModPath, n)})
+						out = append(out, panicSite{fn, ins, "must-call", shortName(prog.ModPath, n)})
 					}
 					if n == "strings.Repeat" {
 						out = append(out, panicSite{fn, ins, "repeat", "strings.Repeat"})
@@ -132,8 +156,17 @@ func enumeratePanicSites(e *Env) []panicSite {
 								if nullableSource(x.X) {
 									out = append(out, panicSite{fn, ins, "deref", describeVal(x.X)})
 								}
+							default:
+								if fromMapLookup(x.X) != nil {
+									out = append(out, panicSite{fn, ins, "deref-lookup", describeVal(x.X)})
+								}
 							}
 						}
+					}
+				case *ssa.FieldAddr:
+					// a pointer read from a map is nil when the key is absent
+					if fromMapLookup(x.X) != nil {
+						out = append(out, panicSite{fn, ins, "deref-lookup", describeVal(x.X)})
 					}
 				}
 			}
@@ -207,6 +240,8 @@ func discharge(e *Env, s panicSite) (string, bool) {
 		return "count decided by R12.4", true
 	case "deref":
 		return dischargeDeref(e, s)
+	case "deref-lookup":
+		return dischargeDerefLookup(e, s)
 	}
 	return "unknown kind", false
 }
@@ -845,6 +880,56 @@ func pairedIndent(e *Env) (string, bool) {
 		return "no call of EndIndent", false
 	}
 	return fmt.Sprintf("all %d calls of EndIndent are deferred right after an Indent on the same indenter", n), true
+}
+
+// fromMapLookup: the map lookup a pointer value was read from (directly, or as the value part of a
+// comma-ok lookup), nil otherwise.
+func fromMapLookup(v ssa.Value) *ssa.Lookup {
+	switch x := v.(type) {
+	case *ssa.Lookup:
+		if _, isMap := x.X.Type().Underlying().(*types.Map); isMap {
+			if _, isPtr := x.Type().Underlying().(*types.Pointer); isPtr {
+				return x
+			}
+		}
+	case *ssa.Extract:
+		if l, ok := x.Tuple.(*ssa.Lookup); ok && x.Index == 0 {
+			if _, isMap := l.X.Type().Underlying().(*types.Map); isMap {
+				if _, isPtr := x.Type().Underlying().(*types.Pointer); isPtr {
+					return l
+				}
+			}
+		}
+	}
+	return nil
+}
+
+// dischargeDerefLookup: the dereference lies behind a nil test of the pointer or behind the true edge of
+// the lookup's own ok result.
+func dischargeDerefLookup(e *Env, s panicSite) (string, bool) {
+	var ptr ssa.Value
+	switch x := s.ins.(type) {
+	case *ssa.FieldAddr:
+		ptr = x.X
+	case *ssa.UnOp:
+		ptr = x.X
+	}
+	lk := fromMapLookup(ptr)
+	for _, b := range s.fn.Blocks {
+		iff, ok := b.Instrs[len(b.Instrs)-1].(*ssa.If)
+		if !ok {
+			continue
+		}
+		for _, edge := range []bool{true, false} {
+			if guardsNonNil(iff.Cond, edge, ptr) && edgeDominatesOrJoin(b, edge, s.ins) {
+				return "(k) behind a nil test of the same pointer", true
+			}
+		}
+		if ex, ok := iff.Cond.(*ssa.Extract); ok && ex.Index == 1 && ex.Tuple == ssa.Value(lk) && edgeDominatesOrJoin(b, true, s.ins) {
+			return "(k') behind the ok result of the same lookup", true
+		}
+	}
+	return "dereference of a pointer read from a map: nil when the key is absent (a reference to something the configuration does not define)", false
 }
 
 func dischargeDeref(e *Env, s panicSite) (string, bool) {
